@@ -220,7 +220,17 @@ def run_impl(w, root, inline, missing_mode):
     except Exception as e:  # pylint: disable=broad-except
         res = ('host-exception', '%s: %s' % (type(e).__name__, e))
     user = {k: ('<function>' if callable(v) else v) for k, v in g.items() if not (k in impl.bs.SCRIPT_FUNCTIONS and v is impl.bs.SCRIPT_FUNCTIONS[k])}
-    return res, fetched, logs, user
+    # second run with the SAME options object (as a host that keeps one configuration does): a plain relative include of the new
+    # script must resolve exactly as the host configured it (against the root for path/URL roots, verbatim for inline scripts)
+    n0 = len(fetched)
+    files_text['probe-after.bare'] = "probeAfter = 1\n"
+    try:
+        impl.bs.execute_script(impl.bs.parse_script("include 'probe-after.bare'"), opts)
+    except Exception:  # pylint: disable=broad-except
+        pass
+    second = fetched[n0:]
+    del fetched[n0:]
+    return res, fetched, logs, user, second
 
 
 def run_ref(w, root, inline):
@@ -268,6 +278,10 @@ def check_world(w, root, inline, missing_mode):
         raise Violation('marker sequence %r, expected %r' % (a[2], b[2]), d, 'markers')
     if a[3] != b[3]:
         raise Violation('final globals %r, expected %r' % (a[3], b[3]), d, 'globals')
+    want_second = [normloc(jumpvm.resolve(None if inline else root, 'probe-after.bare'))]
+    if a[4] != want_second:
+        raise Violation('a second script run with the same options object fetched its include from %r, the configured resolution gives %r '
+                        '(state left behind by the first run, which ended with %r)' % (a[4], want_second, a[0]), d, 'second-run-resolution')
     return b
 
 
